@@ -11,7 +11,9 @@ tier=quick; repotests=0
 while [ $# -gt 0 ]; do case "$1" in --tier) tier="$2"; shift 2;; --repo-tests) repotests=1; shift;; *) shift;; esac; done
 name="$(basename "$patch_file" .patch)"
 tmp="/var/tmp/mut-$name-$$"; mkdir -p "$tmp"
-trap 'rm -rf "$tmp" "$VERIF_ROOT/build/mut-$name"' EXIT
+# the evidence file of the property belongs to runs on the unchanged tree: keep it across the mutant run
+[ -f "$VERIF_ROOT/evidence/$id.json" ] && cp "$VERIF_ROOT/evidence/$id.json" "$tmp/evidence.keep"
+trap '[ -f "$tmp/evidence.keep" ] && cp "$tmp/evidence.keep" "$VERIF_ROOT/evidence/$id.json"; rm -rf "$tmp" "$VERIF_ROOT/build/mut-$name"' EXIT
 files=$(grep -E '^\+\+\+ b/' "$patch_file" | sed 's#^+++ b/##')
 for f in $files; do mkdir -p "$tmp/$(dirname "$f")"; cp "$VERIF_REPO/$f" "$tmp/$f"; done
 ( cd "$tmp" && patch -s -p1 < "$patch_file" ) || { echo "MUTANT $name $id patch does not apply"; exit 3; }
